@@ -192,6 +192,101 @@ pub fn honest(seed: u64, d: u64, pl: &Pool, rep: &mut Report) {
     });
 }
 
+/// Is the responder banned *now*: listed, and the entry has not run out (entries that ran out
+/// stay in the list until the handler's periodic purge).
+fn banned_now(r_id: &Id, r_addr: &SocketAddr) -> bool {
+    let l = ban_list_snapshot();
+    let now = std::time::Instant::now();
+    let live = |e: Option<&Option<std::time::Instant>>| match e {
+        Some(None) => true,
+        Some(Some(t)) => *t > now,
+        None => false,
+    };
+    live(l.ban_nodes.get(&NodeId::new(r_id))) || live(l.ban_ips.get(&r_addr.ip()))
+}
+
+/// A responder lies, is banned for a short time, the ban runs out (wall clock; the list is only
+/// purged every few minutes), and it lies again: it must be banned again.
+pub fn reoffence(seed: u64, pl: &Pool, rep: &mut Report) {
+    let rt = runtime(seed);
+    rt.block_on(async {
+        let mut rng = Rng::new(seed ^ 0x0FF2);
+        let ban_ms = 20 + rng.below(30);
+        let mut v = ServiceRig::start(&mut rng, ServiceCfg { mode: Mode::Ip4, local_enr_has_addr: true, tweak: Box::new(move |b| {
+            b.ban_duration(Some(std::time::Duration::from_millis(ban_ms)));
+        }) }).await;
+        let r_sk = signing_key(&mut rng);
+        let r_addr = v4(10, 0, 0, 79, 9000);
+        let r_enr = build_enr(&r_sk, 2, EnrAddr::Socket(r_addr), None);
+        let r_id: Id = r_enr.node_id().raw();
+        v.emit(HandlerOut::Established(r_enr.clone(), r_addr, ConnectionDirection::Outgoing)).await;
+        v.settle().await;
+        let first = v.take_handler_in();
+        fail_others(&mut v, first, None).await;
+        v.settle().await;
+        v.take_handler_in();
+        v.take_events();
+        let r_na = NodeAddress::new(r_addr, NodeId::new(&r_id));
+        let dist_of = |e: &Enr| kb::log2(&r_id, &e.node_id().raw());
+        let mut offences = 0;
+        let mut log: Vec<Value> = Vec::new();
+        for round in 0..2 {
+            let d = 256 - rng.below(3);
+            let target = target_at(&r_id, d, &mut rng);
+            let lookup = tokio::spawn(v.discv5.find_node(NodeId::new(&target)));
+            v.settle().await;
+            let msgs = v.take_handler_in();
+            let Some((req_id, distances)) = find_request(&msgs, &r_id) else {
+                lookup.abort();
+                break;
+            };
+            fail_others(&mut v, msgs, Some(&req_id)).await;
+            let Some(off) = pl.enrs.iter().find(|e| !distances.contains(&dist_of(e))) else {
+                lookup.abort();
+                break;
+            };
+            let t_before = std::time::Instant::now();
+            v.emit(HandlerOut::Response(r_na.clone(), Box::new(Response { id: req_id.clone(), body: ResponseBody::Nodes { total: 1, nodes: vec![off.clone()] } }))).await;
+            v.settle().await;
+            offences += 1;
+            let listed = banned(&r_id, &r_addr);
+            // in force = the entry runs out after the moment this offence was delivered (judged
+            // against that moment, not against "now", so that a stalled process cannot matter)
+            let live = {
+                let l = ban_list_snapshot();
+                let ok = |e: Option<&Option<std::time::Instant>>| match e {
+                    Some(None) => true,
+                    Some(Some(t)) => *t > t_before,
+                    None => false,
+                };
+                ok(l.ban_nodes.get(&NodeId::new(&r_id))) || ok(l.ban_ips.get(&r_addr.ip()))
+            };
+            log.push(json!({"round": round, "requested_distances": distances, "listed_after": listed, "ban_in_force_after": live}));
+            if !live {
+                rep.violation(if round == 0 { "C11:off-distance-responder-not-banned" } else { "C11:off-distance-responder-not-banned-again" }, format!("a responder returned an off-distance record ({}) and no ban is in force afterwards (listed: {listed})", if round == 0 { "first offence" } else { "second offence, after its first ban had run out" }), json!({"scenario_seed": seed.to_string(), "half": "reoffence", "ban_ms": ban_ms, "log": log}));
+            }
+            for _ in 0..20 {
+                let more = v.take_handler_in();
+                if more.is_empty() && lookup.is_finished() {
+                    break;
+                }
+                fail_others(&mut v, more, None).await;
+                v.settle().await;
+            }
+            lookup.abort();
+            if round == 0 {
+                // let the ban run out on the wall clock; nothing purges the list meanwhile
+                std::thread::sleep(std::time::Duration::from_millis(ban_ms + 15));
+            }
+        }
+        rep.evaluations += 1;
+        if offences == 2 {
+            rep.count("reoffence_after_ban_expiry");
+        }
+        rep.fingerprint(&("reoffence", offences, ban_ms / 10));
+    });
+}
+
 pub fn malicious(seed: u64, pl: &Pool, rep: &mut Report) {
     let rt = runtime(seed);
     rt.block_on(async {
@@ -459,7 +554,9 @@ pub fn run(p: &Params) -> Report {
     let pl = pool(&mut prng, 64);
     if let Some(r) = &p.replay {
         let seed: u64 = r["replay"]["scenario_seed"].as_str().unwrap().parse().unwrap();
-        if r["replay"]["half"] == "honest" {
+        if r["replay"]["half"] == "reoffence" {
+            reoffence(seed, &pl, &mut rep);
+        } else if r["replay"]["half"] == "honest" {
             let d = r["replay"]["log2_distance_target_responder"].as_u64().unwrap_or(256);
             honest(seed, d, &pl, &mut rep);
         } else {
@@ -491,6 +588,12 @@ pub fn run(p: &Params) -> Report {
     for i in 0..n {
         let seed = p.shard_seed(0x1B_0000 + i);
         crate::util::guarded(&mut rep, seed, |rep| malicious(seed, &pl, rep));
+    }
+    // a liar whose ban ran out lies again (wall-clock sleeps of 35-65 ms each: kept small)
+    let ro = p.budget(320, 16_000);
+    for i in 0..ro {
+        let seed = p.shard_seed(0x1C_0000 + i);
+        crate::util::guarded(&mut rep, seed, |rep| reoffence(seed, &pl, rep));
     }
     rep.extra.insert("exhaustive_subspaces".into(), json!(["honest half: every log2 distance class 0..256 between lookup target and responder"]));
     // full stack: lookups through a simulated network in which a few responders slip in a record
